@@ -39,6 +39,7 @@ func runC17(c *Ctx) {
 	c.Rule("NAME-CONFINED", "plugin-chosen names only reach the bucket API, and insertion points need an explicit read bucket", 3)
 	c.Rule("DUPLICATE-OUTPUT", "the same output path from two plugins is an error, detected before anything is written", 3)
 	c.Rule("INDEXED-RESULTS", "plugin responses are stored at the plugin's configuration index", 1)
+	c15StagedUntilFlush(c)
 	pk := p.Pkg("private/bufpkg/bufimage")
 	if pk == nil {
 		c.Fail("GENERATE-ONCE", "anchor", token.NoPos, "bufimage not found")
